@@ -410,7 +410,9 @@ func runScenario(sc scenario, stallSite string, stallIdx int) schedResult {
 			}
 		}
 		stop = srv.Stop
-		idle = func() bool { return !srv.RequestState.HasPendingRequests() }
+		// idle: nothing pending AND nothing queued ("nothing pending" alone also holds for a moment between the conclusion of one
+		// request and the dispatch of the next, and under machine load that moment can outlast the scripted end of the run)
+		idle = func() bool { return !srv.RequestState.HasPendingRequests() && qm.allEmpty() }
 	} else {
 		replyFrame = `{"currentTime":"2020-01-01T00:00:00Z"}`
 		fc := &fakeClient{}
